@@ -25,7 +25,7 @@ def trace_cfg(ctx, size, mn, mx):
 
 
 def validate(ctx, exe, args, trace, cfg, what):
-    return vlib.record_and_validate(ctx, exe, args, trace, "AsyncPipe", "Trace_AsyncPipe.tla", cfg, what, timeout=900)
+    return vlib.record_and_validate(ctx, exe, args, trace, "AsyncPipe", "Trace_AsyncPipe.tla", cfg, what, timeout=300 if ctx.quick() else 2400)
 
 
 def run_scenarios(ctx, exe, path, tag):
